@@ -79,6 +79,29 @@ class World(c01.World):
             cl.calculate = probe
             cl._simkit_probe = True
 
+    def after_solve_attempt(self, pp, P):
+        # the user looks at g(r) after every solve attempt, converged or not (public API; result not judged here)
+        try:
+            with warnings.catch_warnings():
+                warnings.simplefilter('ignore')
+                pp.calculate.pair_correlation(P)
+        except Exception:
+            pass
+
+    def check_g_via_api(self, pp, spec, P, res, grid, r_user, site):
+        """g(r) as the public API hands it out (calculate.pair_correlation) is the stored h(r) + 1, also inside the cores"""
+        with warnings.catch_warnings():
+            warnings.simplefilter('ignore')
+            g = pp.calculate.pair_correlation(P)
+        gd = np.asarray(g.data, dtype=float)
+        h = oracles.as_real(pp, P.totalCorr, grid, site)
+        if gd.shape != h.shape or oracles.space_name(pp, g) != 'Real':
+            raise Violation('pair_correlation_shape_or_space', site, {'shape': list(gd.shape), 'space': oracles.space_name(pp, g)})
+        sc = max(1.0, float(np.max(np.abs(h))))
+        d = float(np.max(np.abs(gd - (h + 1.0))))
+        if not d <= oracles.TOL * sc:
+            raise Violation('pair_correlation_is_not_stored_h_plus_one', site, {'max_abs_diff': d, 'scale': sc})
+
     def monitor_eval(self, pp, spec, P, x, grid, r_user, masks, ctx, mon):
         """after each callback: F^-1(directCorr) + gamma_in = -1 on every core mask (side effects of cost)"""
         mon['n'] += 1
